@@ -355,7 +355,12 @@ private:
     if (record_timestamp_ns >= _next_rotation_time)
     {
       _rotate_files(record_timestamp_ns);
-      _next_rotation_time = _calculate_rotation_tp(record_timestamp_ns, _config);
+
+      // Advance to the first scheduled rotation point after this record. Adding the period to the
+      // record's own timestamp would shift every following rotation point by the record's offset
+      uint64_t const rotation_period_ns = _calculate_rotation_tp(0, _config);
+      _next_rotation_time +=
+        (((record_timestamp_ns - _next_rotation_time) / rotation_period_ns) + 1) * rotation_period_ns;
       return true;
     }
 
